@@ -11,15 +11,19 @@
 (*            between the brackets (and the command is accepted)           *)
 (*   invalid  structurally malformed: must be refused, backend not called  *)
 (*   unspec   forms the RFC does not bless but the property does not       *)
-(*            forbid (no brackets, source routes, quoted local parts,      *)
-(*            consecutive or trailing dots, odd domain octets, 8-bit       *)
-(*            without SMTPUTF8): not judged                                *)
+(*            forbid (no brackets, source routes, consecutive or trailing  *)
+(*            dots, odd domain octets, 8-bit without SMTPUTF8, an empty    *)
+(*            quoted string): not judged                                   *)
+(* A quoted-string local part (DQUOTE *QcontentSMTP DQUOTE, with "\" x a   *)
+(* quoted-pair) is judged: the mailbox the backend gets is the content     *)
+(* with the quoted-pairs resolved, "@", the domain.                        *)
 (* Parameter part: a list of parameter tokens after the path, each an      *)
 (* abstract keyword[=value class]; verdict per list and configuration.     *)
 (***************************************************************************)
 EXTENDS Naturals, Sequences, FiniteSets, TLC, Json
 
 PathToks == {"<", ">", "@", ".", ":", ",", "q", "s", "a", "1", "h"}
+\* "b" (backslash) only occurs in the quoted-string family below
 Atext(t) == t \in {"a", "1"}
 
 \* automaton over the tokens after "FROM:" / "TO:"; states:
@@ -30,8 +34,16 @@ PStep(q, t) ==
   CASE q = "S"  -> IF t = "<" THEN "L0" ELSE IF t = "s" THEN "U" ELSE IF t = ">" THEN "X" ELSE "U"
     [] q = "L0" -> IF Atext(t) THEN "LA"
                    ELSE IF t = ">" THEN "N"              \* "<>"
-                   ELSE IF t \in {"@", "q", "h", "."} THEN "U" \* source route, quoted string, 8-bit, leading dot (lenient dot handling: not judged)
+                   ELSE IF t = "q" THEN "Q0"             \* quoted-string local part
+                   ELSE IF t \in {"@", "h", "."} THEN "U" \* source route, 8-bit, leading dot (lenient dot handling: not judged)
                    ELSE "X"
+    \* inside a quoted string: everything but DQUOTE and backslash stands for itself
+    [] q \in {"Q0", "Q"} -> IF t = "q" THEN (IF q = "Q0" THEN "U" ELSE "QE")   \* (empty quoted string: not judged)
+                           ELSE IF t = "b" THEN "QB"
+                           ELSE IF t = "h" THEN "U"
+                           ELSE "Q"
+    [] q = "QB" -> IF t = "h" THEN "U" ELSE "Q"          \* quoted-pair
+    [] q = "QE" -> IF t = "@" THEN "D0" ELSE "X"          \* only the domain may follow
     [] q = "N"  -> IF t = "s" THEN "P" ELSE "X"
     [] q = "LA" -> IF Atext(t) THEN "LA"
                    ELSE IF t = "." THEN "LD"
@@ -126,12 +138,16 @@ ParamsVerdict(ps, en, sizeLimit) ==
 (* Enumerations for TLC *)
 
 CONSTANT MaxLen
+\* the quoted-string family: <" body tail
+QuotedToks == {"a", "s", "b", "q", ".", "@", ">"}
+QuotedTails == {<<"q", "@", "a", ">">>, <<"@", "a", ">">>, <<"q", "a", ">">>, <<"q", "@", ">">>, <<"q", "@", "a">>, <<"b", "q", "@", "a", ">">>}
 VARIABLES what, kind, w, en, lim
 Exts == {"DSN", "SMTPUTF8", "REQUIRETLS", "RRVS", "BINARYMIME"}
 \* (strings that do not open with a bracket are all unspecified, except the
 \* few enumerated by the second disjunct: only bracketed ones go to full length)
 Init == \/ /\ what = "path" /\ kind \in {"mail", "rcpt"}
            /\ w \in {<<"<">> \o t : t \in WordsUpTo(PathToks, MaxLen - 1)} \cup WordsUpTo(PathToks, 2)
+                   \cup {<<"<", "q">> \o body \o tail : body \in WordsUpTo(QuotedToks, 3), tail \in QuotedTails}
            /\ en = {} /\ lim = FALSE
         \/ /\ what = "params" /\ kind = "mail" /\ w \in WordsUpTo(MailParams, 2)
            /\ en \in {{}, Exts} /\ lim \in BOOLEAN
@@ -143,9 +159,9 @@ Verdict == IF what = "path" THEN PathVerdict(kind, w) ELSE ParamsVerdict(w, en, 
 
 \* sanity properties of the reference grammar itself
 ValidHasOneAt == (what = "path" /\ Verdict = "valid" /\ w # <<"<", ">">>) =>
-                   /\ Cardinality({i \in DOMAIN w : w[i] = "@"}) = 1
+                   /\ w[2] # "q" => Cardinality({i \in DOMAIN w : w[i] = "@"}) = 1
                    /\ w[1] = "<" /\ w[Len(w)] = ">"
-                   /\ \A i \in 2..(Len(w) - 1) : w[i] \in {"a", "1", ".", "@"}
+                   /\ w[2] # "q" => \A i \in 2..(Len(w) - 1) : w[i] \in {"a", "1", ".", "@"}
 NullPathOnlyForMail == (what = "path" /\ w = <<"<", ">">>) => (Verdict = "valid") = (kind = "mail")
 DisabledIsInvalid == (what = "params" /\ en = {} /\ \E i \in DOMAIN w : ExtOfKey(KeyOf(w[i])) # "") => Verdict # "valid"
 
